@@ -94,3 +94,82 @@ def classes(r):
 
 def nontrivial(r):
     return any(ob.get("invoked") for ob in r["obs"] if isinstance(ob, dict))
+
+
+# ---- other threads read the due time while exec_jobs reschedules the job (threading front end): "the due time a job
+# ---- reports (datetime, and timedelta relative to any instant) is always such an instant" also holds for a reader that
+# ---- runs concurrently - it sees the due time before or after a rescheduling, never a half-done one
+_seq = {k: globals()[k] for k in ("scenarios", "runner", "specs", "classes", "nontrivial")}
+S_ = 1_000_000
+
+
+def _reader_scenario(rng):
+    from . import c14
+    clock = gen.rand_instant(rng)[0] // S_ * S_
+    jobs = []
+    for _i in range(rng.randint(1, 2)):
+        if rng.random() < 0.5:
+            T = rng.choice([1, 2, 3]) * S_
+            jobs.append({"call": 0, "timings": [["c", T]], "skip": rng.random() < 0.8, "start": [clock - rng.randint(2, 6) * T, None], "tags": []})
+        else:
+            call = rng.choice([1, 1, 2])
+            t = ["t", 0, rng.randrange(60) if call == 2 else 0, rng.randrange(60), 0, None]
+            jobs.append({"call": call, "timings": [t], "skip": rng.random() < 0.8, "tags": [],
+                         "start": [clock - rng.randint(2, 6) * (60 if call == 1 else 3600) * S_, None]})
+    nj = len(jobs)
+    threads = [[{"op": "exec", "force": rng.random() < 0.3}] for _ in range(rng.randint(1, 2))]
+    for _ in range(rng.randint(1, 2)):
+        threads.append([{"op": "due", "key": rng.randrange(nj), "reps": rng.choice([20, 40, 80])} for _ in range(rng.randint(1, 2))])
+    return {"kind": "readers", "tz": None, "n_threads": 1, "clock0": clock, "advance": rng.choice([0, 1, 7, 61, 3700]) * S_ + rng.choice([0, 500_000]),
+            "jobs": jobs, "threads": threads, "ops": [],
+            "sched": {"kind": "random", "seed": rng.randrange(10**9), "depth": 2}, "line_preempt": True}
+
+
+def scenarios(rng, n, tier):  # noqa: F811
+    for scn in _seq["scenarios"](rng, n, tier):
+        yield _reader_scenario(rng) if rng.random() < 0.08 else scn
+
+
+def runner(scn):  # noqa: F811
+    if scn.get("kind") == "readers":
+        from . import c14
+        return c14.runner(scn)
+    return _seq["runner"](scn)
+
+
+def specs(r, calls=(1, 2, 3)):  # noqa: F811
+    if r["scn"].get("kind") != "readers":
+        return _seq["specs"](r, calls)
+    out = r["obs"][0]
+    qs = []
+    if out.get("deadlock") or out.get("error"):
+        qs.append(("spec eq 0 1", {"what": "concurrent readers: deadlock or a thread died", "detail": out.get("deadlock") or out.get("error")}))
+        return qs
+    stable = {int(k): set(v) for k, v in (out.get("stable_dues") or {}).items()}
+    for rec in out["records"]:
+        if rec["op"] != "due":
+            continue
+        res = rec["result"]
+        if res[0] != "d":
+            qs.append(("spec eq 0 1", {"what": "concurrent readers: reading the due time raised", "error": list(res)}))
+            continue
+        k = rec["args"]["key"]
+        bad = [v for v in res[1] if v not in stable.get(k, set())]
+        qs.append((f"spec eq {len(bad)} 0", {"what": "concurrent reader: every datetime / timedelta read is a due time the job had before or after a rescheduling",
+                                             "key": k, "not_a_due_time": bad[:4], "stable": sorted(stable.get(k, set()))[:8]}))
+    return qs
+
+
+def classes(r):  # noqa: F811
+    return ["kind:concurrent-readers"] if r["scn"].get("kind") == "readers" else _seq["classes"](r)
+
+
+def nontrivial(r):  # noqa: F811
+    if r["scn"].get("kind") == "readers":
+        return any(x["op"] == "due" for x in r["obs"][0].get("records", []))
+    return _seq["nontrivial"](r)
+
+
+RULE += ("; 8% of the scenarios have other threads read job.datetime / job.timedelta while exec_jobs callers reschedule overdue (mostly "
+         "skip_missing) jobs, with thread switches at every source line of the rescheduling code: every value read is a due time the "
+         "job had before or after a rescheduling")
